@@ -86,7 +86,7 @@ func c11N(tier string) int {
 	return 160
 }
 
-var c11Scenarios = []string{"shared-pointers", "disjoint-pointers", "shared-unique-ids", "duplicated-unique-ids", "identical-twins", "empty-side", "rotated-pointers"}
+var c11Scenarios = []string{"shared-pointers", "disjoint-pointers", "shared-unique-ids", "duplicated-unique-ids", "identical-twins", "empty-side", "rotated-pointers", "unique-ids-on-different-people", "rotated-pointers-only"}
 
 func init() {
 	fw.Register(&fw.Prop{
@@ -98,7 +98,7 @@ func init() {
 		Cases:      func(tier string, seed uint64) int { return c11N(tier) },
 		Run:        c11Run,
 		Batch:      func(tier string, n int) int { return 4 },
-		Rule: "pairs of individual lists from generated family graphs (shared / disjoint / rotated pointers, shared and duplicated unique ids, identical twins, an empty side, 0..30 people) compared by the real pipeline under the race detector with Jobs in {0,1,2,3,8,16}, GOMAXPROCS in {1,2,16}, thresholds incl. 0 and 1, each on freshly decoded documents (cold caches) and repeated under 3 seeded schedule perturbations injected at the hook points (Gosched / 10-300 us sleeps between pipeline stages). " +
+		Rule: "pairs of individual lists from generated family graphs (shared / disjoint / rotated pointers, shared and duplicated unique ids, unique ids shared by unrelated people, identical twins, an empty side, 0..30 people) compared by the real pipeline under the race detector with Jobs in {0,1,2,3,8,16}, GOMAXPROCS in {1,2,16}, thresholds incl. 0 and 1, each on freshly decoded documents (cold caches) and repeated under 3 seeded schedule perturbations injected at the hook points (Gosched / 10-300 us sleeps between pipeline stages). " +
 			"monitors: result checker (every individual exactly once, no empty result, every pair justified by threshold, unique id or trusted pointer), differential against the Jobs=1 result when no two candidate pairs tie, offline event-log checker (multiset of sends = begins = ends = collects, no pair sent twice, winners were collected), race-detector logs (library run and 'gedcom diff -jobs N' built with -race). non-trivial = both sides non-empty with at least one matched pair; distinct by pair text + Jobs + GOMAXPROCS; distinct interleavings = distinct worker orders of process.begin events",
 		Floors: func(a *fw.Agg, tier string) []string {
 			var f []string
@@ -183,6 +183,24 @@ func c11Run(c *fw.Ctx, i int) {
 		if r.Bool() {
 			base, right = right, base
 		}
+	case "unique-ids-on-different-people":
+		// the k-th people of two unrelated documents carry the same unique id:
+		// a certain match that the similarity matrix would never find again
+		right = gen.NewFG(r, gen.FGOpts{People: r.Range(1, 30), MultiNames: true, MissingBits: true, NoLiving: true, PtrPrefix: "J", TokenBase: 7000})
+		for k := range base.People {
+			if k < len(right.People) && k%3 != 2 {
+				uid := fmt.Sprintf("%032X", uint64(k+1)*0x9E3779B97F4A7C15)[:32]
+				base.People[k].UIDs, right.People[k].UIDs = []string{uid}, []string{uid}
+			}
+		}
+	case "rotated-pointers-only":
+		// different people behind every pointer and nothing else to go by: with
+		// PreferPointerAbove = 0 every match is a pointer match
+		right = c10EditedCopy(r, base, false, false)
+		m := len(right.People)
+		for k, p := range right.People {
+			p.Ptr = base.People[(k+1)%m].Ptr
+		}
 	case "rotated-pointers":
 		right = c10EditedCopy(r, base, false, false)
 		m := len(right.People)
@@ -207,7 +225,7 @@ func c11Run(c *fw.Ctx, i int) {
 	sim := gedcom.NewSimilarityOptions()
 	conf := "default"
 	pick := r.Intn(6)
-	if scen == "rotated-pointers" && r.Bool() {
+	if (scen == "rotated-pointers" && r.Bool()) || (scen == "rotated-pointers-only" && r.Chance(3, 4)) {
 		pick = 2
 	}
 	switch pick {
@@ -224,6 +242,7 @@ func c11Run(c *fw.Ctx, i int) {
 		sim.PreferPointerAbove = 1
 		conf = "prefer-pointer-1"
 	}
+	c.Class("configuration", conf)
 	payload := map[string]interface{}{"left": lt, "right": rt, "jobs": jobs, "gomaxprocs": procs, "configuration": conf, "scenario": scen}
 	decode := func() (gedcom.IndividualNodes, gedcom.IndividualNodes, bool) {
 		ld, e1 := gedcom.NewDocumentFromString(lt)
